@@ -12,6 +12,7 @@ RULE = ("codec monitor wraps _write/_build of 9 block classes + 11 nested item c
         "its jump-table sizes; decoding happens from a stream with random prefix and non-zero suffix; "
         "non-trivial = block with >= 1 item")
 ASSUMPTIONS = ["BTS camera records are generated with exactly 70 distortion coefficients (the on-disk width)",
+               "one shard feeds +-inf samples: only the size oracles of C02 are meaningful there (they are the only ones judged)",
                "the monitor reads nBytes immediately before _write and immediately after _build"]
 _classes = ["Data3D", "MarkerTrack", "EMG", "EMGTrack", "ForceTorque3D", "ForceTorqueTrack",
             "ForcePlatformsDataBlock", "ForcePlatformData", "ForcePlatformsCalibrationDataBlock",
@@ -26,6 +27,9 @@ def plan(tier, seed):
     n = 300 if tier == "quick" else 6000
     return plan_codec(tier, seed, ["C02"], shapes=True,
                       extra=[{"kind": "repo-tests"}, {"kind": "c15", "n": n, "objects": True},
+                             # sizes must also agree for samples outside the round-trip domain (+-inf)
+                             {"kind": "random", "shard": 900, "n": 1500 if tier == "quick" else 40000, "oracles": ["C02"],
+                              "kinds": ["data3D", "emg", "force3D", "platData"], "inf": True},
                              {"kind": "c16", "n": n, "objects": True}, {"kind": "c20", "n": n // 2, "objects": True}])
 
 
